@@ -15,22 +15,22 @@ FULL STATEMENT (`err_atomic`): for every op that resizes one container and every
 `applyOp … = (m', .error _)` implies `m'.bytes = m.bytes` (hence `len`), `m'.orig = m.orig`.
 It is FALSE of the current code for `UnsizedList::insert` / `UnsizedMap::insert` with a fallible element
 initialiser (`ulist_init_fail_witness`, `set_data_inner_init_fail_witness` below — registered known
-findings). Proved for all `SupportedA2` non-composite ops (every op on `fixed`/`list`/`set`/`map`/`rem`/`struct`/`enum`
-nodes and `replace`/`reset` on every node kind, at any nesting depth). Missing: `ulist`/`umap`
-insert/remove with infallible initialisers (in progress, `MachineNodeUlist.lean`).
+findings). Proved for all `SupportedA2` non-composite ops (every op on `fixed`/`list`/`set`/`map`/`rem`/`ulist`/`struct`/`enum`
+nodes and `replace`/`reset` on every node kind, at any nesting depth). Missing: `umap` (in progress).
 -/
 
 /-- **Atomicity**: a covered single-container op that returns an error — index/range out of bounds,
 prefix overflow, growth refused by the schedule or beyond `orig + 10240` — leaves bytes, length,
-`orig` and the schedule exactly as they were. For EVERY refusal schedule. -/
+`orig` and the schedule exactly as they were. For EVERY refusal schedule. (`Err.initFail` = an
+initialiser failing behind the resize is the registered known finding, see the witnesses below.) -/
 theorem err_atomic_partial (s : Shape) (v : Val) (hok : s.ok = true) (hwf : WF s v = true) (m : Mem)
     (hm : m.bytes = encode s v) (hsmall : m.orig + maxIncrease < Shape.u32Lim)
     (hlen : m.bytes.length ≤ m.orig + maxIncrease) (p : List Step) (op : Op)
     (hsup : ∀ t u, resolve s v p = .ok (t, u) → SupportedA2 t op = true) (hnc : composite op = false)
-    (m' : Mem) (e : Err) (h : applyOp s p op m = (m', .error e)) :
+    (m' : Mem) (e : Err) (hne : e ≠ .initFail) (h : applyOp s p op m = (m', .error e)) :
     m'.bytes = m.bytes ∧ m'.bytes.length = m.bytes.length ∧ m'.orig = m.orig ∧ m'.refuse = m.refuse := by
   simp only [WF, Bool.and_eq_true] at hwf
-  obtain ⟨h1, h2, h3⟩ := applyOp_atomic2 s v ⟨⟨true, false, hok⟩, hwf.1, hwf.2⟩ m hm ⟨hsmall, hlen⟩ p op hsup hnc m' e h
+  obtain ⟨h1, h2, h3⟩ := applyOp_atomic2 s v ⟨⟨true, false, hok⟩, hwf.1, hwf.2⟩ m hm ⟨hsmall, hlen⟩ p op hsup hnc m' e hne h
   exact ⟨h1, by rw [h1], h2, h3⟩
 
 /-
@@ -47,12 +47,12 @@ theorem err_canonical_partial (s : Shape) (v : Val) (hok : s.ok = true) (hwf : W
     (hm : m.bytes = encode s v) (hsmall : m.orig + maxIncrease < Shape.u32Lim)
     (hlen : m.bytes.length ≤ m.orig + maxIncrease) (p : List Step) (op : Op)
     (hsup : ∀ t u, resolve s v p = .ok (t, u) → SupportedA2 t op = true)
-    (m' : Mem) (e : Err) (h : applyOp s p op m = (m', .error e)) :
+    (m' : Mem) (e : Err) (hne : e ≠ .initFail) (h : applyOp s p op m = (m', .error e)) :
     ∃ v', WF s v' = true ∧ m'.bytes = encode s v' ∧ m'.bytes.length = size s v'
       ∧ m'.orig = m.orig ∧ m'.refuse = m.refuse := by
   simp only [WF, Bool.and_eq_true] at hwf
   obtain ⟨v', g', hb, ho, hr⟩ := applyOp_err_canonical s v ⟨⟨true, false, hok⟩, hwf.1, hwf.2⟩ m hm ⟨hsmall, hlen⟩
-    p op hsup m' e h
+    p op hsup m' e hne h
   exact ⟨v', by simp [WF, g'.valid, g'.fits], hb, by rw [hb, encode_size_all s v' g'.valid], ho, hr⟩
 
 /-! ## The known findings, as kernel-checked witnesses on the model of the code that exists -/
@@ -121,5 +121,6 @@ example : Unsized.C01.exS.ok = true ∧ WF Unsized.C01.exS Unsized.C01.exV = tru
 
 example : SupportedA2 (.list (.pod 1) 1) (.push [9]) = true ∧ composite (.push [9]) = false := by decide
 example : SupportedA2 (.map 1 (.pod 1) 1) (.minsertAll []) = true := by decide
+example : SupportedA2 (.ulist (.list (.pod 1) 1)) (.uinsert 0 3) = true := by decide
 
 end Unsized.C06
